@@ -267,3 +267,46 @@ CLAIMS["C09"] = {
 }
 
 NOT_APPLICABLE = {}
+
+# ---------------------------------------------------------------------------------------------------------------
+# Clauses added after the second round of seeded changes / large refactorings (appended to the texts above).
+ADDENDA = {
+    "C01": " The range premise of the bit-decomposition hint (0 <= E < 2^N) is decided by interval reasoning over the "
+           "dominating tests; a range that is not implied is a violation.",
+    "C02": " Also: constraint emission is memoryless (no cached state on wire objects / module tables decides emission); every "
+           "value if_then_else returns for a secret condition is select(c,t,f) (polynomial or truth table); every fresh factor "
+           "of a field product relation is range-bounded (the unbounded divmod quotient is a recorded known finding with a "
+           "forged-witness demonstration).",
+    "C03": " Also: a test that skips the range check on unpack is evaluated for every small modulus; declarations are enforced "
+           "at every call (memoryless rule).",
+    "C04": " Calls unknown to the value homomorphism are uninterpreted function symbols, so a closed-form value next to a "
+           "differently built wire is a violation.",
+    "C05": " Also: check_zero/check_positive hint Python's truth value over the integers; `~` never meets a plain int; mixed "
+           "integer / fixed-point comparisons happen at one scale; selection returns the chosen alternative.",
+    "C07": " Also: emission is memoryless; a raise inside the guarded arm of add_constraint implies the unguarded arm's raise "
+           "condition.",
+    "C08": " Also: nothing computed from the guard outlives the region (memoryless rule); add_guard is the last fallible step "
+           "of BranchContext.enter; the context-manager protocol is accepted as a release discipline.",
+    "C09": " Also: the guard kernel of runtime.py splits on 'a guard is installed', never on its value; constraints emitted in "
+           "a branch not taken are satisfied (shared with C07); the merge multiplexer selects exactly (shared with C02).",
+    "C10": " Also: the snarkjs linear-combination algebra (shared with C13, incl. exact cancellation) and no table keyed by "
+           "hash(value); prove() is interpreted interprocedurally (helper writers, writer factories).",
+    "C11": " Also: the zkinterface linear-combination algebra (shared with C13) and no table keyed by hash(value).",
+    "C12": " Also: the whole equation line passes one context-consistency check; a block lists exactly the members it is given, "
+           "in order; no table keyed by hash(value).",
+    "C13": " The merge is executed on four key classes including 'present in both with coefficients cancelling to 0'.",
+    "C14": " Also: `/` is never applied to a representation (exact division is not a floor); the integer-secret class rejects "
+           "or defers fixed-point operands (the strict-comparison defect named in the property was found by this rule and "
+           "repaired).",
+    "C15": " Also: the per-position multiplexer if_then_else selects exactly (shared with C02).",
+    "C16": " Also: the evaluated skip predicate of the unpack range check (shared with C03).",
+    "C18": " Also: under autoprove the exit callback runs backend.prove() exactly once and under no other condition.",
+    "C19": " Stage rules are stated on the outcomes of a symbolic execution of the selection code over an abstract registry "
+           "row (pairing of name and module on every outcome, no second assignment of backend, decision order, loud failure "
+           "of a named backend, report of an unknown name before auto-detection); star imports honour __all__.",
+    "C20": " Also: sponge construction (block added to the rate part, capacity element carried over, one permutation per "
+           "block) and pure rejection sampling of the subset-sum coefficients.",
+}
+for _k, _v in ADDENDA.items():
+    if _k in CLAIMS:
+        CLAIMS[_k] = dict(CLAIMS[_k], text=CLAIMS[_k]["text"] + _v)
